@@ -213,11 +213,12 @@ impl Matcher {
             .unwrap_or(self.config.initial_char_class);
         for (i, &c) in haystack[start..].iter().enumerate() {
             let (c, char_class) = c.char_class_and_normalize(&self.config);
+            // the class of every character has to be tracked, not just the candidates'
+            let prev_char_class = std::mem::replace(&mut prev_class, char_class);
             if c != needle {
                 continue;
             }
-            let bonus = self.config.bonus_for(prev_class, char_class);
-            prev_class = char_class;
+            let bonus = self.config.bonus_for(prev_char_class, char_class);
             let score = bonus * BONUS_FIRST_CHAR_MULTIPLIER + SCORE_MATCH;
             if score > max_score {
                 max_pos = i as u32;
@@ -256,11 +257,12 @@ impl Matcher {
         let end = haystack.len() - needle.len() + 1;
         for (i, &c) in haystack[start..end].iter().enumerate() {
             let (c, char_class) = c.char_class_and_normalize(&self.config);
+            // the class of every character has to be tracked, not just the candidates'
+            let prev_char_class = std::mem::replace(&mut prev_class, char_class);
             if c != needle[0] {
                 continue;
             }
-            let bonus = self.config.bonus_for(prev_class, char_class);
-            prev_class = char_class;
+            let bonus = self.config.bonus_for(prev_char_class, char_class);
             let score = bonus * BONUS_FIRST_CHAR_MULTIPLIER + SCORE_MATCH;
             if score > max_score
                 && haystack[start + i + 1..start + i + needle.len()]
